@@ -270,6 +270,10 @@ where
     let length = cur_loc + 1;
 
     while cur_loc < length {
+        #[cfg(feature = "verif")]
+        if crate::verif::step_budget_exhausted() {
+            return Err(Error::new("verif: step budget exhausted", ""));
+        }
         let (new_state, new_loc) = execute_one(ipt, out, err, state, cur_loc)?;
         state = new_state;
         cur_loc = new_loc;
